@@ -457,7 +457,7 @@ impl Scenario for Close {
 
 pub struct Death;
 
-fn death_session(ctx: Ctx, bound: usize, drain: bool) {
+fn death_session(ctx: Ctx, bound: usize, drain: bool, drop_instead: bool) {
     let tuning = ConnectionTuning::default().mem_channel_bound(bound);
     let mut conn = match open(&ctx, ConnectionOptions::default().heartbeat(2), tuning) {
         Ok(c) => c,
@@ -509,6 +509,13 @@ fn death_session(ctx: Ctx, bound: usize, drain: bool) {
     for a in actors {
         ctx.join(a);
     }
+    if drop_instead {
+        // dropping the connection closes it too; there is no result, but when drop returns the
+        // I/O thread is gone and the transport released
+        drop(conn);
+        ctx.log("dropped");
+        return;
+    }
     let r = conn.close();
     ctx.log(format!("close -> {}", res(&r)));
 }
@@ -554,6 +561,15 @@ impl Scenario for Death {
             v.push(json!({"fault": "none", "bound": bound}));
             v.push(json!({"fault": "eof", "at": 200, "bound": bound}));
         }
+        // the same ends reached through drop instead of close
+        for fault in ["silence", "serverclose", "clientexception", "none"] {
+            v.push(json!({"fault": fault, "bound": 16, "drop": true}));
+        }
+        for at in [0usize, 120, 200, 260] {
+            v.push(json!({"fault": "eof", "at": at, "bound": 16, "drop": true}));
+            v.push(json!({"fault": "readerr", "at": at, "bound": 16, "drop": true}));
+        }
+        v.push(json!({"fault": "writeerr", "call": 5, "bound": 16, "drop": true}));
         v
     }
     fn bound(&self, tier: &str, p: &Value) -> usize {
@@ -589,7 +605,8 @@ impl Scenario for Death {
         }
         let bound = p["bound"].as_u64().unwrap() as usize;
         let drain = p["fault"] != "none" && p["closing"] != true;
-        Built { broker: Box::new(broker), cfg, root: Box::new(move |ctx: Ctx| death_session(ctx, bound, drain)) }
+        let drop_instead = p["drop"] == true;
+        Built { broker: Box::new(broker), cfg, root: Box::new(move |ctx: Ctx| death_session(ctx, bound, drain, drop_instead)) }
     }
     fn check(&self, p: &Value, o: &Outcome, _w: &World) -> Vec<(String, String)> {
         use vh::sim::world::IoEvent;
@@ -607,6 +624,9 @@ impl Scenario for Death {
             return v;
         }
         let close_res = call_results(&main).into_iter().find(|(a, _)| a == "close").map(|(_, b)| b);
+        if p["drop"] == true && !main.iter().any(|l| l == "dropped") {
+            v.push(("death:drop-did-not-return".into(), format!("{:?}", main)));
+        }
         let got_closeok = o.io_events.iter().any(|e| matches!(e, IoEvent::Frame(AMQPFrame::Method(0, AMQPClass::Connection(pconnection::AMQPMethod::CloseOk(_))))));
         let got_server_close = o.io_events.iter().any(|e| matches!(e, IoEvent::Frame(AMQPFrame::Method(0, AMQPClass::Connection(pconnection::AMQPMethod::Close(_))))));
         let got_tx = o.io_events.iter().any(|e| matches!(e, IoEvent::Frame(AMQPFrame::Method(_, AMQPClass::Tx(_)))));
@@ -621,6 +641,7 @@ impl Scenario for Death {
             _ => vec!["Ok".into()],
         };
         match close_res {
+            None if p["drop"] == true => {}
             None => v.push(("death:close-no-result".into(), format!("Connection::close did not return: {:?}", main))),
             Some(r) => {
                 // a fault that never became visible (crash offset beyond the stream, write call
